@@ -122,4 +122,106 @@ def c09(tier, seed, replay_path=None):
     return v
 
 
-CHECKS = {"C09": c09, "C10": c10}
+def tlc_webhooks(consts, invariants, properties=(), view="WView", emit_file=None, simulate=None, depth=None, seed=None, timeout=1800):
+    d = c.sub("cfg")
+    cfg = os.path.join(d, "wh_%d.cfg" % random.randrange(1 << 30))
+    c.write_cfg(cfg, "MWSpec", consts, invariants, properties, view=view)
+    r = c.run_tlc("MC_Webhooks", cfg, timeout=timeout, out_file=emit_file, simulate=simulate, depth=depth, seed=seed, workers=1 if simulate else None)
+    if not r.ok and not simulate:
+        c.tlc_must_pass(r, "MC_Webhooks")
+    return r
+
+
+def c12(tier, seed, replay_path=None):
+    binary = fc.build()
+    if replay_path:
+        payload = json.load(open(replay_path))
+        p = os.path.join(c.sub("replay"), "one.jsonl")
+        open(p, "w").write(json.dumps(payload["case"]["behaviour"]) + "\n")
+        return simple_verdict("C12", fc.replay(binary, p, seed, nproc=1, op="webhooks"), [])
+    rng = random.Random(seed)
+    INV = ["InactiveIffErrorsReachedMax", "ErrorsBounded"]
+    PR = ["SuccessResets", "InactiveOrDeletedNotCalled", "OnePostPerEventWithExactAuth", "ReRegisterRule"]
+    urls = c.tla_set(["u1", "u2"])
+    runs = []
+    for mt in ((1, 2, 3) if tier == "quick" else (1, 2, 3, 5)):
+        runs.append(tlc_webhooks({"Urls": urls, "MaxTries": mt, "MaxSteps": 7 if tier == "quick" else 9, "Emit": '"none"'}, INV, PR))
+    d = c.sub("gen")
+    from checks_chain import merge
+    aggs, gen = [], {}
+    plan = [("e1", 1, 4, 6000, None), ("e2", 2, 4, 6000, None), ("s3", 3, 12, 1500, 300)] if tier == "quick" else \
+           [("e1", 1, 4, None, None), ("e2", 2, 5, 150000, None), ("e3", 3, 4, None, None), ("s3", 3, 16, 20000, 3000), ("s5", 5, 24, 10000, 2000)]
+    for tag, mt, ms, sample, simn in plan:
+        raw = os.path.join(d, "C12%s.out" % tag)
+        r = tlc_webhooks({"Urls": urls, "MaxTries": mt, "MaxSteps": ms, "Emit": '"paths"'}, ["EmitInv"], view=None, emit_file=raw,
+                         simulate=("num=%d" % simn) if simn else None, depth=ms + 1 if simn else None, seed=seed)
+        runs.append(r)
+        out = os.path.join(d, "C12%s.jsonl" % tag)
+        n = c.unquote_lines(raw, out)
+        os.unlink(raw)
+        if n == 0:
+            raise c.Infra("no webhook histories generated (%s)" % tag)
+        if sample and n > sample:
+            keep = set(rng.sample(range(n), sample))
+            with open(out) as fi, open(out + ".s", "w") as fo:
+                for i, line in enumerate(fi):
+                    if i in keep:
+                        fo.write(line)
+            os.replace(out + ".s", out)
+        gen[tag] = {"histories": n, "replayed": min(n, sample or n), "MaxTries": mt, "MaxSteps": ms, "simulated": bool(simn)}
+        c.log("  gen C12%s: %d histories" % (tag, n))
+        aggs.append(fc.replay(binary, out, seed, op="webhooks"))
+        if tag in ("e2", "s3"):
+            # the production client against an httptest server (method, headers, body recorded on the server side)
+            small = out + ".real"
+            with open(out) as fi, open(small, "w") as fo:
+                for i, line in enumerate(fi):
+                    if tier == "thorough" or i % 6 == 0:
+                        fo.write(line)
+            aggs.append(fc.replay(binary, small, seed, op="webhooks", extra_env={"VERIF_REALCLIENT": "1"}))
+    agg = merge(aggs)
+    st = agg["stats"]
+    if st.get("op:notify", 0) == 0 or st.get("op:register", 0) == 0 or st.get("op:restart", 0) == 0:
+        raise c.Infra("vacuous run: %s" % dict(st))
+    return simple_verdict("C12", agg, runs, {"generation": gen, "exhaustive": tier != "quick",
+                          "rule": "every sequence of register(bearer|custom|none) / delete / notify(outcome per called hook in 200, 500, transport error, unreadable body) / restart "
+                                  "over two urls from Webhooks.tla (exhaustive to depth 4-5, simulated to depth 12-24); after EVERY operation GET /webhook?url= of every url is compared"})
+
+
+def c16(tier, seed, replay_path=None):
+    binary = fc.build()
+    d = c.sub("gen")
+    cfg = os.path.join(d, "apierr.cfg")
+    c.write_cfg(cfg, "ESpec", {}, ["NoFiveHundred", "MistakesAre4xx", "EmitInv"])
+    raw = os.path.join(d, "C16.out")
+    r = c.run_tlc("MC_ApiErrors", cfg, workers=1, out_file=raw)
+    if not r.ok:
+        c.tlc_must_pass(r, "MC_ApiErrors")
+    tbl = os.path.join(d, "C16.table.json")
+    if c.unquote_lines(raw, tbl, limit=1) != 1:
+        raise c.Infra("request-class table was not emitted")
+    nrows = len(json.load(open(tbl))["rows"])
+    dbd = c.sub("c16db")
+    out = os.path.join(d, "C16.res")
+    inst = 4 if tier == "quick" else 40
+    p = c.run_harness(binary, {"VERIF_OP": "apierr", "VERIF_IN": tbl, "VERIF_OUT": out, "VERIF_DB": os.path.join(dbd, "e.db"), "VERIF_SEED": seed,
+                               "VERIF_INSTANCES": inst}, cwd=dbd)
+    if p.returncode != 0 or not os.path.exists(out):
+        raise c.Infra("apierr harness failed: %s %s" % (p.stdout[-1500:], p.stderr[-1500:]))
+    res = json.load(open(out))
+    agg = {"behaviours": res["behaviours"], "steps": res["steps"], "queries": res["queries"], "mismatches": res.get("mismatches") or [],
+           "samples": res.get("samples") or [], "crashed": [], "stats": res.get("stats") or {}}
+    if nrows < 150 or res["queries"] < nrows * inst:
+        raise c.Infra("vacuous run: %d rows, %d requests" % (nrows, res["queries"]))
+    v = simple_verdict("C16", agg, [r], {"rows": nrows, "instances_per_row": inst, "exhaustive": False,
+                       "rule": "the full product of parameter classes per route (ApiErrors.tla, emitted by TLC) x several grammar-generated concrete requests per class, "
+                               "on a store with a fork and an orphan chain; oracle: never 5xx, status family as owed, body exactly one JSON value, 4xx with code+message, headers digest unchanged"})
+    v["level"] = "exploration"
+    v["coverage"]["evaluations"] = res["queries"]
+    v["coverage"]["distinct_nontrivial"] = nrows
+    for f in c.findings_for("C16"):
+        v["known"].append(f["what"])
+    return v
+
+
+CHECKS = {"C09": c09, "C10": c10, "C12": c12, "C16": c16}
